@@ -245,6 +245,41 @@ static void quote_after_prefix_case(vf::Rng& r) {
     vf::violation("api-roundtrip:after-prefix:" + sig_of((const unsigned char*)s.data(), s.size()), "output does not decode to the input: " + vf::printable(out, 200));
 }
 
+// a short string reached by Serialize with every remaining capacity 0..80 of the caller's write buffer: the reservation in
+// front of Quote() has to cover the kernel's widest store
+static vf::Counter c_q_rem("quote:short-string-at-every-remaining-capacity");
+static void quote_at_remaining_capacity_case(uint64_t i, vf::Rng& r) {
+  static const char* strs[] = {"a", "ab", "abc", "\x01", "\x01" "a", "\x01\x02" "ab", "\"", "0123456789012345678901234567890", "01234567890123456789012345678901", "012345678901234567890123456789012",
+                               "\x01\x02\x03\x04\x05\x06" "xy", ""};
+  // 20-digit numbers in front: 21 bytes per element, more than the 18 bytes per node that Serialize reserves up front, so
+  // that from about 30 elements on the caller's capacity decides how much room is left when the string is reached
+  size_t m = 30 + (size_t)(i % 6) * 9;
+  su::PoolDoc d;
+  d.SetArray();
+  for (size_t k = 0; k < m; k++) d.PushBack(su::PoolNode((uint64_t)UINT64_MAX - k), d.GetAllocator());
+  size_t prefix_len = 1 + m * 21;  // [ 18446744073709551615, ...
+  for (const char* cs : strs) {
+    std::string str(cs);
+    d.PushBack(su::PoolNode(str.data(), str.size(), d.GetAllocator()), d.GetAllocator());
+    for (size_t rem = 0; rem <= 80; rem++) {
+      c_q_rem.add();
+      vf::eval();
+      WriteBuffer wb(prefix_len + rem);
+      vf::note("Serialize([numbers..., short string]) into a sized WriteBuffer");
+      SonicError e = d.Serialize(wb);
+      if (e != kErrorNone) { vf::violation("api-serialize-error", "Serialize returned " + std::to_string((int)e)); return; }
+      std::string out(wb.ToString(), wb.Size());
+      jm::RefResult rr = jm::ref_parse(out);
+      if (!rr.ok || rr.v.k != jm::JVal::Arr || rr.v.a.size() != m + 1 || rr.v.a[m].k != jm::JVal::Str || rr.v.a[m].s != str)
+        vf::violation("api-roundtrip:at-remaining-capacity:" + sig_of((const unsigned char*)str.data(), str.size()), "remaining " + std::to_string(rem) + ": " + vf::printable(out, 200));
+    }
+    d.PopBack();
+  }
+  vf::witness("[" + std::to_string(m) + " x 20-digit number, short string] into WriteBuffer(prefix+0..80)");
+  vf::distinct_enum(12 * 81);
+  (void)r;
+}
+
 static void audit_quote_tables() {
   for (int b = 0; b < 256; b++) {
     vf::eval();
@@ -476,6 +511,7 @@ int main(int argc, char** argv) {
                    if (r.below(4) == 0) quote_api_case(s, r.below(3) ? 0 : r.range(1, 70));
                  }});
     S.push_back({"expanding_string_after_prefix", 4000, 200000, [](uint64_t, vf::Rng& r) { quote_after_prefix_case(r); }});
+    S.push_back({"short_string_at_every_remaining_capacity", 6, 6, quote_at_remaining_capacity_case, false});
     // source address sweep: every length 0..200, strings ending 0..130 bytes before unmapped memory, escapes in the tail
     S.push_back({"page_end_sweep", 201, 201 * 20, [](uint64_t i, vf::Rng& r) {
                    size_t n = i % 201;
